@@ -208,7 +208,7 @@ def zoo_sched(i):
         cfg["debug_log"] = True
     name = f"{ROOT}/src_{i}.f90"
     src = f"module zoo_{i}\n  integer :: v\nend module zoo_{i}\n"
-    if i % 23 == 3:
+    if i % 61 == 3:
         # a source beyond every "only worth it for big files" threshold
         src = f"module zoo_{i}\n" + "".join(f"  integer :: v{j}\n" for j in range(6000)) + f"end module zoo_{i}\n"
     tree = {f"{ROOT}/victim.f90": "module victim\nend module victim\n", name: src, f"{ROOT}/sub/": "",
